@@ -99,6 +99,24 @@ def order_signature(threads):
     return "".join("%x" % (t % 16) for _, t in ev)[:80]
 
 
+def _indep():
+    texts = ["1+(" * d + "1" + ")" * d for d in (40, 100, 150)]
+    texts.append("[" * 60 + "7" + "]" * 60 + " == " + "[" * 60 + "7.0" + "]" * 60)
+    texts.append("acc = 0; " + "acc += 2; " * 40 + "acc * 1.5")
+    texts.append("max(" * 30 + "3" + ", 2)" * 30 + " + min(5, sum(1, 2, 3), mul(2, 2))")
+    texts.append("x = 'a'; y = [x, 1, {x: 2}]; 'a' in y && not (2 in y) ? " + "- " * 41 + "5 : 0")
+    texts.append("true ? " * 50 + "1" + " : 0" * 50)
+    out = []
+    for t in texts:
+        o, _ = ref.evaluate(ref.rparse(ref.rtok(t)), {})
+        assert o[0] == "ok", (t, o)
+        out.append((t, o))
+    return out
+
+
+INDEP = _indep()
+
+
 def run_shard(desc):
     kind, si, n, profile = desc
     rnd = common.rng(PROP, kind, si)
@@ -269,6 +287,17 @@ def run_shard(desc):
                         for it in range(4):
                             plan.append({"op": "hammer", "tick": True, "n": block, "text": ("%s(1)" % nm) if nm.startswith("wf") else ("6 %s 4" % nm), "tag": nm if phase == 1 else "2:" + nm})
                 plans.append(plan)
+            # bystanders: threads that evaluate programs naming nothing that is being registered (deeply nested, long, assigning, calling
+            # built-ins) on their own fresh contexts; whatever the other threads do, each evaluation must give its sequential result
+            n_indep = 2 if os.environ.get("VERIF_TOOL") == "miri" else 6
+            indep_progs = INDEP if os.environ.get("VERIF_TOOL") != "miri" else INDEP[:2]
+            first_indep = len(plans)
+            for j in range(n_indep):
+                plan = []
+                for q in range(2 * nn * 4):
+                    k = (q + j) % len(indep_progs)
+                    plan.append({"op": "hammer", "n": max(1, block // 8), "text": indep_progs[k][0], "tag": "indep:%d" % k})
+                plans.append(plan)
             steps = [{"op": "exec", "text": "1 + 1"}, {"op": "threads", "plans": plans, "jitter_ns": [0] * len(plans)}]
             run = common.run_vexec(steps, wd, "st-%d-%d" % (si, h), profile, timeout=600)
             if crashed(run, steps, "steady-state stress"):
@@ -292,7 +321,23 @@ def run_shard(desc):
                         writes[st_["name"]] = (r["t0"], r["t1"], st_["beh"]["id"])
                     elif st_["op"].startswith("reg_"):
                         overrides[st_["name"]] = (r["t0"], r["t1"], st_["beh"]["id"])
-            for e, recs in enumerate(th[2:]):
+            for recs in th[first_indep:]:
+                if not isinstance(recs, list):
+                    viol(["thread-panicked", "stress"], "a bystander thread panicked outside a step", None)
+                    continue
+                for r in recs:
+                    tag = r.get("tag")
+                    if not (isinstance(tag, str) and tag.startswith("indep:")):
+                        continue
+                    text, want = indep_progs[int(tag[6:])]
+                    for sg in r.get("segs", []):
+                        part["evaluations"] += sg["count"]
+                        C["bystander_evaluations"] = C.get("bystander_evaluations", 0) + sg["count"]
+                        if ref.outcome_from_record(sg["res"]) == want:
+                            part["classes"].add("bystander:%s" % tag)
+                        else:
+                            viol(["bystander-disturbed", tag], "a thread evaluating `%s` on its own context, while other threads evaluated and registered unrelated names, got %s (%d times); alone and in every sequential order the result is %s" % (text[:120], json.dumps(sg["res"])[:200], sg["count"], evalcheck.fmt_outcome(want)), None)
+            for e, recs in enumerate(th[2:first_indep]):
                 if not isinstance(recs, list):
                     viol(["thread-panicked", "stress"], "an evaluator thread panicked outside a step", None)
                     continue
